@@ -156,7 +156,36 @@ def run_case(cs):
         return
     eff = dict(ren)  # original path -> current path
     # ---- optional second step in a later generation
-    second = rng.choice(["none", "none", "chain", "back", "long"])
+    second = rng.choice(["none", "none", "chain", "back", "long", "reuse"])
+    if second == "reuse":
+        # a name that was given away by a recorded rename is taken by another file in a later generation
+        freed = rng.choice(sorted(ren))
+        others = sorted(f for f in world.read_tree(root) if world.read_tree(root)[f] is not None and f not in ren.values() and f != freed)
+        if os.path.lexists(os.path.join(root, freed)) or not others:
+            second = "none"
+        else:
+            c = rng.choice(others)
+            os.makedirs(os.path.dirname(os.path.join(root, freed)), exist_ok=True)
+            os.rename(os.path.join(root, c), os.path.join(root, freed))
+            steps.append(f"reuse: {c!r} -> {freed!r} (a name given away in the generation before)")
+            cs.count("freed_names_reused")
+            if not _dr_step(cs, root, fm2, {c: freed}, {"steps": steps, "renames": {c: freed}, "classes": ["reuse"]}, steps, rel_fmt, {"reuse"}, prior, "reuse"):
+                return
+            eff[c] = freed
+            # and when that file disappears later on, it is missing
+            gone = os.path.join(root, freed)
+            keep = open(gone, "rb").read()
+            os.remove(gone)
+            for cmd in ("verify", "diff"):
+                r = drive.run(cmd, [root])
+                cs.evaluated()
+                cs.count("removed_after_reuse_judged")
+                if r.internal:
+                    cs.violation(classify.internal_key(r), classify.internal_sig(r, cmd), {"steps": steps, **r.brief()})
+                elif r.exit != 10:
+                    cs.violation("name-reused-after-rename", {"kind": "removed-file-with-reused-name-not-reported", "cmd": cmd, "exit": r.exit}, {"steps": steps, "removed": freed, "out": r.text[-300:]})
+            with open(gone, "wb") as f:
+                f.write(keep)
     if second == "long":
         # the same file renamed again and again in successive generations: a->b->c->d..., or back and forth
         a = rng.choice(sorted(ren))
@@ -222,7 +251,7 @@ def _dr_step(cs, root, fm, ren, ctx, steps, rel_fmt, classes, prior, stage):
         cs.violation(key, {**classify.internal_sig(r, "create-dr"), "newdir": "newdir" in classes, "fmt": rel_fmt}, {**ctx, **r.brief()})
         return False
     if r.exit != 0:
-        key = "rename-chain-across-generations" if stage in ("chain", "back") else "dr-create-nonzero"
+        key = "rename-chain-across-generations" if stage in ("chain", "back") else "name-reused-after-rename" if stage == "reuse" else "dr-create-nonzero"
         cs.violation(key, {"kind": "dr-exit", "exit": r.exit, "stage": stage, "fmt": rel_fmt, "classes": sorted(classes)}, {**ctx, "out": r.text[-500:]})
         return False
     names = [n for n in new.get(".", []) if n.endswith(".mhl")]
@@ -241,6 +270,11 @@ def _dr_step(cs, root, fm, ren, ctx, steps, rel_fmt, classes, prior, stage):
     for p, rec in recs.items():
         if rec["previousPath"] is not None and p not in ren.values():
             cs.violation("previous-path-on-unrenamed-file", {"kind": "dr-previous-path-extra"}, {**ctx, "path": p, "prev": rec["previousPath"]})
+    for h in m["hashes"]:
+        # no folder is renamed in this workload: a folder record with a previous path took it from a file
+        if h["kind"] == "dir" and h.get("previousPath") is not None:
+            cs.count("folder_records_with_previous_path")
+            cs.violation("previous-path-on-unrenamed-file", {"kind": "dr-previous-path-on-folder", "stage": stage}, {**ctx, "path": h["path"], "prev": h["previousPath"]})
     if "missing file" in r.text:
         cs.violation("dr-reports-missing", {"kind": "dr-missing-output"}, {**ctx, "out": r.text[-400:]})
     for cmd in ("verify", "diff", "create"):
@@ -255,7 +289,7 @@ def _dr_step(cs, root, fm, ren, ctx, steps, rel_fmt, classes, prior, stage):
             cs.violation(classify.internal_key(r2), classify.internal_sig(r2, cmd + "-after-dr"), {**ctx, **r2.brief()})
             return False
         if r2.exit != 0:
-            key = "rename-chain-across-generations" if stage in ("chain", "back") else "followup-after-dr-nonzero"
+            key = "rename-chain-across-generations" if stage in ("chain", "back") else "name-reused-after-rename" if stage == "reuse" else "followup-after-dr-nonzero"
             cs.violation(key, {"kind": "after-dr", "cmd": cmd, "exit": r2.exit, "stage": stage}, {**ctx, "out": r2.text[-500:]})
             return False
     # the generation written by the follow-up create knows the renamed files under their new names: verified, not original
